@@ -89,34 +89,11 @@ Qed.
 (* ------------------------------------------------------------------ *)
 (* the cut position *)
 
-Lemma rfind_hyphen_aux_bound : forall s i limit best h,
-  rfind_hyphen_aux s i limit best = Some h -> best = Some h \/ h < limit.
-Proof.
-  induction s as [|a s IH]; intros i limit best h H; simpl in H.
-  - now left.
-  - destruct (Nat.ltb i limit) eqn:E.
-    + apply Nat.ltb_lt in E. apply IH in H. destruct H as [H|H]; [|now right].
-      destruct (is_hyphen a); [injection H as <-; now right | now left].
-    + now left.
-Qed.
-
 Lemma long_word_cut_le : forall c sl, long_word_cut c sl <= sl.
-Proof.
-  intros c sl. unfold long_word_cut.
-  destruct (Nat.ltb sl (slen c)); [|lia].
-  destruct (rfind_hyphen c sl) as [h|] eqn:E; [|lia].
-  unfold rfind_hyphen in E. apply rfind_hyphen_aux_bound in E.
-  destruct E as [E|E]; [discriminate|].
-  destruct (Nat.ltb 0 h && negb (all_hyphens (take h c))); lia.
-Qed.
+Proof. intros c sl. unfold long_word_cut. lia. Qed.
 
 Lemma long_word_cut_pos : forall c sl, 0 < sl -> 0 < long_word_cut c sl.
-Proof.
-  intros c sl Hsl. unfold long_word_cut.
-  destruct (Nat.ltb sl (slen c)); [|lia].
-  destruct (rfind_hyphen c sl) as [h|]; [|lia].
-  destruct (Nat.ltb 0 h && negb (all_hyphens (take h c))); lia.
-Qed.
+Proof. intros c sl Hsl. unfold long_word_cut. exact Hsl. Qed.
 
 (* ------------------------------------------------------------------ *)
 (* fill and one_line *)
@@ -615,6 +592,18 @@ Proof.
   - rewrite slen_blanks. exact Hfit.
 Qed.
 
+Lemma split_ws_chunks_nonempty : forall text, Forall (fun c => c <> "") (split_ws text).
+Proof.
+  intros text. destruct (split_ws_spec text) as (b & Halt & _). revert b Halt.
+  induction (split_ws text) as [|c r IH]; intros b H; [constructor|].
+  destruct H as [[Hne _] Hr]. constructor; [exact Hne | eapply IH; exact Hr].
+Qed.
+
+Lemma split_ws_nonnil : forall text, text <> "" -> split_ws text <> [].
+Proof.
+  intros text Hne E. destruct (split_ws_spec text) as (b & _ & Hc). rewrite E in Hc. simpl in Hc. congruence.
+Qed.
+
 (* ------------------------------------------------------------------ *)
 (* 6. _wrap_line and wrap_lines: totality, width, indentation, no blank-only line *)
 
@@ -673,35 +662,34 @@ Proof.
   rewrite concat_cons in Hc. simpl in Hc. destruct c; [congruence | discriminate].
 Qed.
 
-(* the side condition of the width theorem: when the text before the first '$' is blank it is used as part of
-   the indent of the first comment line, and must leave room on the line *)
-Definition blank_data_fits (W : nat) (ii line : string) : Prop :=
-  all_pyspace (before_dollar line) = true -> slen ii + slen (before_dollar line) < W.
-
 Definition chunks_ok (l : src_line) : Prop :=
   Forall (fun c => c <> "") (l_chunks l) /\ Forall (fun c => c <> "") (l_data_chunks l) /\
   Forall (fun c => c <> "") (l_comment_chunks l) /\
   (all_pyspace (before_dollar (l_text l)) = false -> l_data_chunks l <> []).
 
 (* 6a. _wrap_line returns (no IndexError, the fuel of the model suffices) *)
-Lemma wrap_line_total : forall W ii si l,
-  2 < W -> slen ii < W -> slen si + 2 < W -> blank_data_fits W ii (l_text l) -> chunks_ok l ->
-  exists out, wrap_line W ii si l = WOk out.
+Lemma wrap_line_chunks_total : forall W cont ii si l,
+  2 < W -> slen ii < W -> slen si + 2 < W -> chunks_ok l ->
+  exists out, wrap_line_chunks W cont ii si l = WOk out.
 Proof.
-  intros W ii si l HW Hii Hsi Hfit (Hc1 & Hc2 & Hc3 & Hc4). unfold wrap_line.
+  intros W cont ii si l HW Hii Hsi (Hc1 & Hc2 & Hc3 & Hc4). unfold wrap_line_chunks.
   assert (Hplain : exists out, of_opt (wrap_chunks W ii si (l_chunks l)) = WOk out).
   { pose proof (wrap_fuel_enough W ii si (l_chunks l) Hii ltac:(lia) Hc1) as F.
     destruct (wrap_chunks W ii si (l_chunks l)) as [ls|]; [exists ls; reflexivity | congruence]. }
   destruct (Nat.leb (slen ii + slen (l_text l)) W); [exact Hplain|].
-  destruct (is_comment (l_text l)).
+  destruct (comment_branch cont (ii ++ l_text l)).
   { pose proof (wrap_fuel_enough W ii comment_si (l_chunks l) Hii ltac:(unfold comment_si, slen; simpl; lia) Hc1) as F.
     destruct (wrap_chunks W ii comment_si (l_chunks l)) as [ls|]; [exists ls; reflexivity | congruence]. }
   destruct (negb (has_char dollar (l_text l))); [exact Hplain|].
   assert (Hsi' : slen (dollar_si si) < W) by (rewrite slen_dollar_si; lia).
   destruct (all_pyspace (before_dollar (l_text l))) eqn:Eb; cbn [negb].
-  - assert (Hi : slen (ii ++ before_dollar (l_text l)) < W) by (rewrite slen_app; apply Hfit; exact Eb).
-    pose proof (wrap_fuel_enough W _ (dollar_si si) (l_comment_chunks l) Hi Hsi' Hc3) as F.
-    destruct (wrap_chunks W (ii ++ before_dollar (l_text l)) (dollar_si si) (l_comment_chunks l)) as [ls|];
+  - set (ci := if Nat.leb (Nat.div W 2) (slen (ii ++ before_dollar (l_text l))) then si
+                else ii ++ before_dollar (l_text l)).
+    assert (Hi : slen ci < W).
+    { unfold ci. destruct (Nat.leb (Nat.div W 2) (slen (ii ++ before_dollar (l_text l)))) eqn:E; [lia|].
+      apply Nat.leb_gt in E. pose proof (half_le W). lia. }
+    pose proof (wrap_fuel_enough W ci (dollar_si si) (l_comment_chunks l) Hi Hsi' Hc3) as F.
+    destruct (wrap_chunks W ci (dollar_si si) (l_comment_chunks l)) as [ls|];
       [exists ls; reflexivity | congruence].
   - pose proof (wrap_fuel_enough W ii si (l_data_chunks l) Hii ltac:(lia) Hc2) as F.
     destruct (wrap_chunks W ii si (l_data_chunks l)) as [ret|] eqn:R; [|congruence].
@@ -720,25 +708,28 @@ Proof.
 Qed.
 
 (* 6b. every line _wrap_line returns fits the limit *)
-Lemma wrap_line_width : forall W ii si l out,
-  2 < W -> slen ii < W -> slen si + 2 < W -> blank_data_fits W ii (l_text l) ->
-  wrap_line W ii si l = WOk out -> Forall (fun x => slen x <= W) out.
+Lemma wrap_line_chunks_width : forall W cont ii si l out,
+  2 < W -> slen ii < W -> slen si + 2 < W ->
+  wrap_line_chunks W cont ii si l = WOk out -> Forall (fun x => slen x <= W) out.
 Proof.
-  intros W ii si l out HW Hii Hsi Hfit H. unfold wrap_line in H.
+  intros W cont ii si l out HW Hii Hsi H. unfold wrap_line_chunks in H.
   assert (Hplain : of_opt (wrap_chunks W ii si (l_chunks l)) = WOk out -> Forall (fun x => slen x <= W) out).
   { intros E. destruct (wrap_chunks W ii si (l_chunks l)) as [ls|] eqn:R; [|discriminate].
     apply WOk_inj in E; subst out. apply (wrap_width W ii si _ _ Hii ltac:(lia) R). }
   destruct (Nat.leb (slen ii + slen (l_text l)) W); [exact (Hplain H)|].
-  destruct (is_comment (l_text l)).
+  destruct (comment_branch cont (ii ++ l_text l)).
   { destruct (wrap_chunks W ii comment_si (l_chunks l)) as [ls|] eqn:R; [|discriminate].
     apply WOk_inj in H; subst out. apply (wrap_width W ii comment_si _ _ Hii ltac:(unfold comment_si, slen; simpl; lia) R). }
   destruct (negb (has_char dollar (l_text l))); [exact (Hplain H)|].
   assert (Hsi' : slen (dollar_si si) < W) by (rewrite slen_dollar_si; lia).
   destruct (all_pyspace (before_dollar (l_text l))) eqn:Eb; cbn [negb] in H.
-  - destruct (wrap_chunks W (ii ++ before_dollar (l_text l)) (dollar_si si) (l_comment_chunks l)) as [ls|] eqn:R;
-      [|discriminate].
-    apply WOk_inj in H; subst out. refine (wrap_width W _ _ _ _ _ Hsi' R).
-    rewrite slen_app. apply Hfit. exact Eb.
+  - set (ci := if Nat.leb (Nat.div W 2) (slen (ii ++ before_dollar (l_text l))) then si
+                else ii ++ before_dollar (l_text l)) in *.
+    assert (Hi : slen ci < W).
+    { unfold ci. destruct (Nat.leb (Nat.div W 2) (slen (ii ++ before_dollar (l_text l)))) eqn:E; [lia|].
+      apply Nat.leb_gt in E. pose proof (half_le W). lia. }
+    destruct (wrap_chunks W ci (dollar_si si) (l_comment_chunks l)) as [ls|] eqn:R; [|discriminate].
+    apply WOk_inj in H; subst out. exact (wrap_width W _ _ _ _ Hi Hsi' R).
   - destruct (wrap_chunks W ii si (l_data_chunks l)) as [ret|] eqn:R; [|discriminate].
     destruct ret as [|r0 rs]; [discriminate|].
     assert (Hret : Forall (fun x => slen x <= W) (r0 :: rs))
@@ -758,45 +749,36 @@ Proof.
         refine (wrap_width W _ _ _ _ _ Hsi' R2). lia.
 Qed.
 
-(* ... and without the side condition it is false: blank text of the width of the line before a '$' *)
 Definition plain_line (line : string) : src_line :=
   SrcLine line (split_ws line) (split_ws (before_dollar line)) (split_ws (from_dollar line)).
 
-Lemma wrap_line_width_refuted :
-  exists W ii si l out,
-    7 < W /\ slen ii < W /\ slen si + 2 < W /\ wrap_line W ii si l = WOk out /\
-    ~ Forall (fun x => slen x <= W) out.
-Proof.
-  exists 20, "", (blanks 5), (plain_line (blanks 22 ++ "$ x y")),
-    [blanks 22 ++ "$"; "     $  x y"].
-  split; [lia|]. split; [simpl; lia|]. split; [simpl; lia|].
-  split; [vm_compute; reflexivity|].
-  intros F. inversion F as [|x xs Hx _]; subst. vm_compute in Hx. lia.
-Qed.
-
 (* 6c. indentation: the first line starts with the initial indent; every other line starts with the continuation
    indent, or is a "c " line that continues a line MontePy takes for a comment line *)
-Definition cont_ok (si line x : string) : Prop :=
-  String.prefix si x = true \/ (is_comment line = true /\ String.prefix comment_si x = true).
+Definition cont_ok (cont : nat) (si written x : string) : Prop :=
+  String.prefix si x = true \/ (comment_branch cont written = true /\ String.prefix comment_si x = true).
 
-Lemma wrap_line_indent : forall W ii si l out,
-  wrap_line W ii si l = WOk out ->
+Lemma wrap_line_chunks_indent : forall W cont ii si l out,
+  String.prefix ii si = true ->
+  wrap_line_chunks W cont ii si l = WOk out ->
   match out with
   | [] => True
-  | l0 :: rest => String.prefix ii l0 = true /\ Forall (cont_ok si (l_text l)) rest
+  | l0 :: rest => String.prefix ii l0 = true /\ Forall (cont_ok cont si (ii ++ l_text l)) rest
   end.
 Proof.
-  intros W ii si l out H. unfold wrap_line in H.
+  intros W cont ii si l out Hpre H. unfold wrap_line_chunks in H.
+  assert (Hsi_ii : forall x, String.prefix si x = true -> String.prefix ii x = true).
+  { intros x Hx. apply prefix_elim in Hpre. destruct Hpre as [t Ht]. apply prefix_elim in Hx. destruct Hx as [u ->].
+    rewrite Ht, app_assoc_s. apply prefix_app. }
   assert (Hplain : of_opt (wrap_chunks W ii si (l_chunks l)) = WOk out ->
                    match out with
                    | [] => True
-                   | l0 :: rest => String.prefix ii l0 = true /\ Forall (cont_ok si (l_text l)) rest
+                   | l0 :: rest => String.prefix ii l0 = true /\ Forall (cont_ok cont si (ii ++ l_text l)) rest
                    end).
   { intros E. destruct (wrap_chunks W ii si (l_chunks l)) as [ls|] eqn:R; [|discriminate E].
     apply WOk_inj in E; subst out. apply wrap_indent in R. destruct ls as [|l0 rest]; [exact I|].
     destruct R as [R1 R2]. split; [exact R1|]. eapply Forall_impl; [|exact R2]. intros x Hx. left. exact Hx. }
   destruct (Nat.leb (slen ii + slen (l_text l)) W); [exact (Hplain H)|].
-  destruct (is_comment (l_text l)) eqn:Ec.
+  destruct (comment_branch cont (ii ++ l_text l)) eqn:Ec.
   { destruct (wrap_chunks W ii comment_si (l_chunks l)) as [ls|] eqn:R; [|discriminate H].
     apply WOk_inj in H; subst out. apply wrap_indent in R. destruct ls as [|l0 rest]; [exact I|].
     destruct R as [R1 R2]. split; [exact R1|]. eapply Forall_impl; [|exact R2]. intros x Hx. right. auto. }
@@ -804,26 +786,31 @@ Proof.
   assert (Hcom : forall ci ls, wrap_chunks W ci (dollar_si si) (l_comment_chunks l) = Some ls ->
                  match ls with
                  | [] => True
-                 | c0 :: cs => String.prefix ci c0 = true /\ Forall (cont_ok si (l_text l)) cs
+                 | c0 :: cs => String.prefix ci c0 = true /\ Forall (cont_ok cont si (ii ++ l_text l)) cs
                  end).
   { intros ci ls R. apply wrap_indent in R. destruct ls as [|c0 cs]; [exact I|].
     destruct R as [R1 R2]. split; [exact R1|]. eapply Forall_impl; [|exact R2].
     intros x Hx. left. eapply prefix_trans_app. exact Hx. }
   destruct (all_pyspace (before_dollar (l_text l))) eqn:Eb; cbn [negb] in H.
-  - destruct (wrap_chunks W (ii ++ before_dollar (l_text l)) (dollar_si si) (l_comment_chunks l)) as [ls|] eqn:R;
-      [|discriminate H].
-    apply WOk_inj in H; subst out. apply Hcom in R. destruct ls as [|c0 cs]; [exact I|].
-    destruct R as [R1 R2]. split; [eapply prefix_trans_app; exact R1 | exact R2].
+  - destruct (Nat.leb (Nat.div W 2) (slen (ii ++ before_dollar (l_text l)))) eqn:Eh.
+    + (* a long blank prefix is replaced by the continuation indent: only reached when ii is a prefix of it *)
+      destruct (wrap_chunks W si (dollar_si si) (l_comment_chunks l)) as [ls|] eqn:R; [|discriminate H].
+      apply WOk_inj in H; subst out. apply Hcom in R. destruct ls as [|c0 cs]; [exact I|].
+      destruct R as [R1 R2]. split; [apply Hsi_ii; exact R1 | exact R2].
+    + destruct (wrap_chunks W (ii ++ before_dollar (l_text l)) (dollar_si si) (l_comment_chunks l)) as [ls|] eqn:R;
+        [|discriminate H].
+      apply WOk_inj in H; subst out. apply Hcom in R. destruct ls as [|c0 cs]; [exact I|].
+      destruct R as [R1 R2]. split; [eapply prefix_trans_app; exact R1 | exact R2].
   - destruct (wrap_chunks W ii si (l_data_chunks l)) as [ret|] eqn:R; [|discriminate H].
     destruct ret as [|r0 rs]; [discriminate H|].
     apply wrap_indent in R. destruct R as [R1 R2].
-    assert (R2' : Forall (cont_ok si (l_text l)) rs)
+    assert (R2' : Forall (cont_ok cont si (ii ++ l_text l)) rs)
       by (eapply Forall_impl; [|exact R2]; intros x Hx; left; exact Hx).
     (* the last data line: the first line, or a continuation line *)
     assert (Hlast : forall t,
               match List.app (removelast (r0 :: rs)) [List.last (r0 :: rs) "" ++ t] with
               | [] => True
-              | l0 :: rest => String.prefix ii l0 = true /\ Forall (cont_ok si (l_text l)) rest
+              | l0 :: rest => String.prefix ii l0 = true /\ Forall (cont_ok cont si (ii ++ l_text l)) rest
               end).
     { intros t. destruct rs as [|r1 rs'].
       - simpl. split; [apply prefix_app_r; exact R1 | constructor].
@@ -861,29 +848,80 @@ Proof.
         destruct Hc as [Hc1 Hc2]. constructor; [left; exact Hc1 | exact Hc2].
 Qed.
 
-(* 6d. wrap_lines *)
-Definition wres_ok (r : wres) : option (list string) := match r with WOk x => Some x | _ => None end.
+(* 6d. _wrap_line on the raw line: the chunks are computed *)
+Lemma munge_nonempty : forall x, all_pyspace x = false -> munge x <> "".
+Proof.
+  intros [|a r] H; [discriminate|]. unfold munge, expandtabs. cbn [expandtabs_aux].
+  destruct (Ascii.eqb a tab_char); [vm_compute; discriminate|].
+  destruct (Ascii.eqb a nl_char || Ascii.eqb a cr_char); cbn [translate_ws]; discriminate.
+Qed.
 
+Definition computed_line (line : string) : src_line :=
+  SrcLine line (chunks_of line) (chunks_of (before_dollar line)) (chunks_of (from_dollar line)).
+
+Lemma computed_chunks_ok : forall line, chunks_ok (computed_line line).
+Proof.
+  intros line. unfold chunks_ok, computed_line, chunks_of. cbn [l_text l_chunks l_data_chunks l_comment_chunks].
+  repeat split; try apply split_ws_chunks_nonempty.
+  intros H. apply split_ws_nonnil. apply munge_nonempty. exact H.
+Qed.
+
+Lemma wrap_line_total : forall W cont ii si line,
+  2 < W -> slen ii < W -> slen si + 2 < W -> exists out, wrap_line W cont ii si line = WOk out.
+Proof.
+  intros W cont ii si line HW Hii Hsi. unfold wrap_line.
+  apply wrap_line_chunks_total; auto. apply computed_chunks_ok.
+Qed.
+
+Lemma wrap_line_width : forall W cont ii si line out,
+  2 < W -> slen ii < W -> slen si + 2 < W ->
+  wrap_line W cont ii si line = WOk out -> Forall (fun x => slen x <= W) out.
+Proof. intros W cont ii si line out HW Hii Hsi H. unfold wrap_line in H. eapply wrap_line_chunks_width; eauto. Qed.
+
+Lemma wrap_line_indent : forall W cont ii si line out,
+  String.prefix ii si = true ->
+  wrap_line W cont ii si line = WOk out ->
+  match out with
+  | [] => True
+  | l0 :: rest => String.prefix ii l0 = true /\ Forall (cont_ok cont si (ii ++ expandtabs line)) rest
+  end.
+Proof.
+  intros W cont ii si line out Hp H. unfold wrap_line in H.
+  apply (wrap_line_chunks_indent _ _ _ _ _ _ Hp H).
+Qed.
+
+(* 6e. wrap_lines *)
 Lemma wrap_lines_width : forall W cont (first : bool) lines out,
   cont + 2 < W ->
-  Forall (fun l => blank_data_fits W (if first then "" else blanks cont) (l_text l)) lines ->
   wrap_lines W cont first lines = WOk out -> Forall (fun x => slen x <= W) out.
 Proof.
   intros W cont first lines. revert first.
-  induction lines as [|l r IH]; intros first out Hc Hfit H; simpl in H.
+  induction lines as [|l r IH]; intros first out Hc H; simpl in H.
   - injection H as <-. constructor.
-  - inversion Hfit as [|l' r' Hl Hr]; subst.
-    destruct (all_pyspace (l_text l)); [eapply IH; eauto|].
-    destruct (wrap_line W (if first then "" else blanks cont) (blanks cont) l) as [a| |] eqn:A; try discriminate.
+  - destruct (all_pyspace l); [eapply IH; eauto|].
+    destruct (wrap_line W cont (if first then "" else blanks cont) (blanks cont) l) as [a| |] eqn:A; try discriminate.
     destruct (wrap_lines W cont first r) as [b| |] eqn:B; try discriminate.
     injection H as <-. apply Forall_app. split.
     + assert (Ha : Forall (fun x => slen x <= W) a).
-      { eapply wrap_line_width; [| | | exact Hl | exact A].
+      { eapply wrap_line_width; [| | | exact A].
         * lia.
         * destruct first; [unfold slen; simpl; lia | rewrite slen_blanks; lia].
         * rewrite slen_blanks; exact Hc. }
       rewrite Forall_forall in *. intros x Hx. apply filter_In in Hx. apply Ha. tauto.
     + eapply IH; eauto.
+Qed.
+
+(* wrap_string_for_mcnp returns for every list of lines *)
+Lemma wrap_lines_total : forall W cont (first : bool) lines,
+  cont + 2 < W -> exists out, wrap_lines W cont first lines = WOk out.
+Proof.
+  intros W cont first lines Hc. induction lines as [|l r [b IH]]; [exists []; reflexivity|].
+  simpl. destruct (all_pyspace l); [exists b; exact IH|].
+  destruct (wrap_line_total W cont (if first then "" else blanks cont) (blanks cont) l) as [a Ha].
+  - lia.
+  - destruct first; [unfold slen; simpl; lia | rewrite slen_blanks; lia].
+  - rewrite slen_blanks; exact Hc.
+  - rewrite Ha, IH. eexists; reflexivity.
 Qed.
 
 Lemma all_blank_pyspace : forall x, all_blank x = true -> all_pyspace x = true.
@@ -900,8 +938,8 @@ Proof.
   intros W cont first lines. revert first.
   induction lines as [|l r IH]; intros first out H; simpl in H.
   - injection H as <-. constructor.
-  - destruct (all_pyspace (l_text l)); [eapply IH; eauto|].
-    destruct (wrap_line W (if first then "" else blanks cont) (blanks cont) l) as [a| |] eqn:A; try discriminate.
+  - destruct (all_pyspace l); [eapply IH; eauto|].
+    destruct (wrap_line W cont (if first then "" else blanks cont) (blanks cont) l) as [a| |] eqn:A; try discriminate.
     destruct (wrap_lines W cont first r) as [b| |] eqn:B; try discriminate.
     injection H as <-. apply Forall_app. split.
     + rewrite Forall_forall. intros x Hx. apply filter_In in Hx. destruct Hx as [_ Hx].
@@ -1078,18 +1116,6 @@ Lemma words_blank_only : forall p, all_kind true p = true -> words p = [].
 Proof. intros p H. rewrite <- (app_nil_r_s p). rewrite words_blank_app by exact H. reflexivity. Qed.
 
 (* ---- the shape of what wrap_chunks returns ---- *)
-Lemma split_ws_chunks_nonempty : forall text, Forall (fun c => c <> "") (split_ws text).
-Proof.
-  intros text. destruct (split_ws_spec text) as (b & Halt & _). revert b Halt.
-  induction (split_ws text) as [|c r IH]; intros b H; [constructor|].
-  destruct H as [[Hne _] Hr]. constructor; [exact Hne | eapply IH; exact Hr].
-Qed.
-
-Lemma split_ws_nonnil : forall text, text <> "" -> split_ws text <> [].
-Proof.
-  intros text Hne E. destruct (split_ws_spec text) as (b & _ & Hc). rewrite E in Hc. simpl in Hc. congruence.
-Qed.
-
 (* the first line is never empty-bodied *)
 Lemma one_line_body_nonempty : forall c r width body any rest,
   c <> "" -> one_line (c :: r) width = (body, any, rest) -> body <> "".
